@@ -127,6 +127,8 @@ GrammarSpec gen_grammar(Rng &r) {
   GrammarSpec g;
   g.tag = "gen";
   int nN = r.range(2, 5), nT = r.range(2, 5);
+  bool rich = r.chance(1, 5); // a richer vocabulary now and then: many lookahead contexts, larger tables
+  if (rich) { nN = r.range(5, 8); nT = r.range(6, 9); g.tag = "gen-rich"; }
   // terminal codes: dense / gaps / sparse
   int style = (int)r.below(4);
   int code = style == 0 ? 0 : r.range(1, 40);
@@ -372,7 +374,7 @@ Pool make_pool(uint64_t pool_seed) {
   if (p.bad.empty()) p.bad.push_back(handwritten_bad()[0]);
   for (auto &g : p.good) {
     std::vector<std::vector<int>> ins;
-    if (g.tag != "gen" && g.tag.compare(0, 4, "fam-") != 0) {
+    if (g.tag.compare(0, 3, "gen") != 0 && g.tag.compare(0, 4, "fam-") != 0) {
       for (auto &hi : hand_inputs())
         if (g.tag == hi.tag)
           for (auto &s : hi.ins) {
@@ -386,7 +388,8 @@ Pool make_pool(uint64_t pool_seed) {
       int base = (int)ins.size();
       for (int i = 0; i < 3; i++) ins.push_back(mutate(r, ins[(size_t)r.below((uint64_t)base)], g.codes));
     } else {
-      for (int i = 0; i < 5; i++) ins.push_back(gen_sentence(r, g, r.range(2, 12)));
+      int maxlen = g.tag == "gen-rich" ? 22 : 12;
+      for (int i = 0; i < 5; i++) ins.push_back(gen_sentence(r, g, r.range(2, maxlen)));
       for (int i = 0; i < 3; i++) ins.push_back(mutate(r, ins[(size_t)r.below(5)], g.codes));
       ins.push_back({});
     }
@@ -472,10 +475,8 @@ Plan gen_hist_plan(uint64_t seed, bool oom, int focus) {
   plan.cfg.sink = r.chance(4, 5) ? 0 : r.range(1, 2);
   plan.cfg.salt = r.next();
   plan.backends = 3;
-  // non-gating probe runs (DESIGN.md §5): trees freed before their grammar (yaep.h forbids it), objects used
-  // again after an allocation failure struck them (C17 does not promise it)
+  // non-gating probe runs (DESIGN.md §5): trees freed before their grammar (yaep.h forbids it)
   if (!oom && r.chance(1, 10)) plan.early_free = 1;
-  if (oom && r.chance(1, 5)) plan.probe_reuse = 1;
   PlanBuilder pb(r, pool, plan);
 
   int ntasks = r.range(1, 3);
